@@ -318,7 +318,26 @@ func judge(r *mon.Report, s *common.Scenario, np *v1.NodePool, nc *provschedulin
 		}
 		r.Inc("resolved_label_checks")
 		if !world.AdmitsSerialized(ser, k, v, true) {
-			r.Inc("diagnostic_resolved_label_outside_requirement")
+			// when the written requirement on the key is one plain finite In set, the value Karpenter stamps as the label must be
+			// one of those values under every reading (the NodeClaim as written would otherwise admit nothing on that key while the
+			// scheduler's requirement admits the set); for ranges / exclusions the mismatch is C15's recorded self-drift business
+			plainIn := 0
+			entries := 0
+			var set []string
+			for _, q := range ser {
+				if q.Key == k {
+					entries++
+					if q.Operator == corev1.NodeSelectorOpIn {
+						plainIn++
+						set = q.Values
+					}
+				}
+			}
+			if entries == 1 && plainIn == 1 {
+				r.Violate("resolved-label-outside-its-finite-In-requirement", fmt.Sprintf("label %s=%s was stamped on the NodeClaim although its own written requirement on that key is In %v", k, v, set), cs, witness(nil))
+			} else {
+				r.Inc("diagnostic_resolved_label_outside_requirement")
+			}
 		}
 	}
 	// 3. instance types: subset of the scheduler's options; strict minValues still met across the sent types
@@ -450,7 +469,7 @@ var _ = scheduling.NewRequirements
 func init() {
 	reg.Register(&reg.Prop{
 		ID: "C13", Level: "exploration",
-		Rule: "each case = generated world whose NodePool requirements are redrawn over ALL eight operators with 1-3 requirements per key on well-known enumerated, well-known integer and custom keys (incl. Lt 0, Gt+NotIn, Gte+Lte) and kept only if the in-process CRD schema + CEL + RuntimeValidate pipeline accepts them; pods add further operators; real Scheduler.Solve → TruncateInstanceTypes(MaxInstanceTypes 3-5) → Provisioner.Create; the NodeClaim captured at the API boundary is compared with the scheduler's in-memory NodeClaim. Non-trivial = a NodeClaim was captured and judged; distinct by (operator multiset per key class of the serialized requirements x minValues policy).",
+		Rule:  "each case = generated world whose NodePool requirements are redrawn over ALL eight operators with 1-3 requirements per key on well-known enumerated, well-known integer and custom keys (incl. Lt 0, Gt+NotIn, Gte+Lte) and kept only if the in-process CRD schema + CEL + RuntimeValidate pipeline accepts them; pods add further operators; real Scheduler.Solve → TruncateInstanceTypes(MaxInstanceTypes 3-5) → Provisioner.Create; the NodeClaim captured at the API boundary is compared with the scheduler's in-memory NodeClaim. Non-trivial = a NodeClaim was captured and judged; distinct by (operator multiset per key class of the serialized requirements x minValues policy).",
 		Cases: cases, Run: run,
 		MinObserved: map[string]int{"nodeclaims_captured": 100, "admission_probes": 5000},
 	})
